@@ -88,7 +88,7 @@ type job struct {
 	typ      bmnumbers.BMNumberType
 	typeName string
 	bits     int
-	param    string                 // parameter class (width class, f class, range class …)
+	param    string                  // parameter class (width class, f class, range class …)
 	literals func(v uint64) []string // alternative constructions through the notation itself (may be nil)
 	vclass   func(v uint64) string
 	note     string // concrete parameters, for messages and replay
@@ -387,6 +387,30 @@ func evalValue(j *job, v uint64, trace *[]string) (fails []failure, constructs i
 			if okLit {
 				constructs++
 				roundtrip(n, "literal "+lit)
+				// a literal has ONE meaning, whatever was done to numbers imported from the same text before: retype
+				// the imported number in place (CastType, as `bmnumbers -cast` and the simulator's value reports do)
+				// and import the same text again
+				// (through the public ImportString, which compiles every matcher on every call: all values of the
+				// widths up to 8 bits, every 61st value above)
+				for _, other := range []string{"unsigned", "hex", "bin"} {
+					if other == got.typ || !(j.bits <= 8 || v%61 == 0) {
+						continue
+					}
+					first, ferr := bmnumbers.ImportString(lit)
+					if ferr != nil || first == nil {
+						break // ImportString against the matcher's own function is cross-checked in importText
+					}
+					if t := bmnumbers.GetType(other); t != nil && bmnumbers.CastType(first, t) == nil {
+						atomic.AddInt64(&historyChecks, 1)
+						again, err := bmnumbers.ImportString(lit)
+						if err != nil || again == nil {
+							fails = append(fails, failure{"history", "literal-rejected-after-an-earlier-import-was-retyped", fmt.Sprintf("%q: %v", lit, err)})
+						} else if g2, err := infoOf(again); err != nil || g2 != got {
+							fails = append(fails, failure{"history", "meaning-depends-on-earlier-imports", fmt.Sprintf("%q imported again after an earlier import was cast to %s: %+v, first import %+v", lit, other, g2, got)})
+						}
+						break
+					}
+				}
 			}
 		}
 	}
@@ -815,6 +839,13 @@ func describeCells(c map[string]map[string]int) string {
 // matches; with a unique claimant that is fn(regexp.MustCompile(pattern), text) whatever the map
 // order. The real ImportString is called as well on a systematic subset (every value of widths
 // whose value index is a multiple of 61, and whenever there is not exactly one claimant) and must agree.
+var historyChecks int64
+
+var (
+	importDisagreeMu sync.Mutex
+	importDisagree   string
+)
+
 func importText(text string, v uint64) (*bmnumbers.BMNumber, error) {
 	if replayMode {
 		return bmnumbers.ImportString(text)
@@ -841,7 +872,13 @@ func importText(text string, v uint64) (*bmnumbers.BMNumber, error) {
 			same = a == b
 		}
 		if !same {
-			harnessError("ImportString(%q) disagrees with the unique claimant %q", text, hit.pat)
+			// ImportString is the repository's public entry point and the claimant is the only matcher accepting the
+			// text: a different answer is ImportString's (caching, dispatch), i.e. the literal has two meanings
+			importDisagreeMu.Lock()
+			if importDisagree == "" {
+				importDisagree = fmt.Sprintf("ImportString(%q) gives something else than the only matcher that accepts it (%s) gives for the same text", text, hit.pat)
+			}
+			importDisagreeMu.Unlock()
 		}
 	}
 	return m, err
